@@ -187,7 +187,7 @@ func init() {
 			fx := fr.fx
 			fx.ufun("atoi_ok", []string{"String"}, "Bool")
 			fx.ufun("atoi_val", []string{"String"}, "Int")
-			fx.s.global("isDigits", `(define-fun isDigits ((s String)) Bool (str.in_re s (re.* (re.range "0" "9"))))`)
+			fx.s.global("isDigits", `(define-fun isDigits ((s String)) Bool (or (= s "") (>= (str.to_int s) 0)))`)
 			s := args[0].t
 			fx.s.assume(st.guard, fmt.Sprintf("(=> (and (isDigits %s) (< 0 (str.len %s)) (<= (str.len %s) 18)) (and (atoi_ok %s) (= (atoi_val %s) (str.to_int %s))))", s, s, s, s, s, s))
 			fx.s.assume(st.guard, fmt.Sprintf("(not (atoi_ok \"\"))"))
@@ -214,7 +214,7 @@ func init() {
 			}
 			fx.s.assume(st.guard, rng)
 			fx.s.assume(st.guard, "(not ("+okf+" \"\"))")
-			fx.s.global("isDigits", `(define-fun isDigits ((s String)) Bool (str.in_re s (re.* (re.range "0" "9"))))`)
+			fx.s.global("isDigits", `(define-fun isDigits ((s String)) Bool (or (= s "") (>= (str.to_int s) 0)))`)
 			fx.s.assume(st.guard, fmt.Sprintf("(=> (and (isDigits %s) (< 0 (str.len %s)) (<= (str.len %s) 9)) (and (%s %s) (= (%s %s) (str.to_int %s))))", s, s, s, okf, s, valf, s, s))
 			v := fx.s.define("parseint", "Int", fmt.Sprintf("(ite (%s %s) (%s %s) 0)", okf, s, valf, s))
 			return []Val{{t: v}, {t: fx.errVal(st, "("+okf+" "+s+")")}}
@@ -463,7 +463,7 @@ func extFindStringSubmatch(fr *Frame, ins ssa.Instruction, c *ssa.CallCommon, ar
 	grp := func(i int) Term { return fmt.Sprintf("(select %s (mkref %s %d))", nh, o, i) }
 	res := fx.s.define("submatch", "Slice", ite(matched, fmt.Sprintf("(mkslice %s 0 %d %d)", o, groups+1, groups+1), "nilslice"))
 	digits := func(t Term, n int) Term {
-		return fmt.Sprintf("(and (= (str.len %s) %d) (str.in_re %s (re.* (re.range \"0\" \"9\"))))", t, n, t)
+		return fmt.Sprintf("(and (= (str.len %s) %d) (>= (str.to_int %s) 0))", t, n, t)
 	}
 	var fact Term
 	switch pat {
